@@ -202,3 +202,24 @@ func VerifHarness_C15_GetPackages() {
 		verifAssert("global-extend-package-loaded", got["pattern=example.org/glob"])
 	}
 }
+
+// VerifHarness_C15_ResolveTarget: the package of an absolute (@cwd/ or literal) output file is the declaring
+// package moved along the directory path from the declaring file to the target - directories are compared as
+// path elements, so siblings whose names merely start alike (conv, convgen, con) are different packages.
+func VerifHarness_C15_ResolveTarget() {
+	dirs := []string{"conv", "convgen", "con", "conv/gen", "c", "conv/sub", "conv/subx", "other/conv", "convgen/conv"}
+	a := nondetChoice("declaring-directory", len(dirs))
+	b := nondetChoice("target-directory", len(dirs))
+	got, err := resolvePackage("/m/"+dirs[a]+"/in.go", "example.org/m/"+dirs[a], "/m/"+dirs[b]+"/gen.go")
+	verifReach("resolved")
+	verifAssert("absolute-target-resolves", err == nil)
+	verifAssert("package-follows-the-directory-path", got == "example.org/m/"+dirs[b])
+	// the module root itself
+	got, err = resolvePackage("/m/"+dirs[a]+"/in.go", "example.org/m/"+dirs[a], "/m/gen.go")
+	verifAssert("module-root-target", err == nil && got == "example.org/m")
+	// relative targets are taken from the declaring directory
+	got, err = resolvePackage("/m/"+dirs[a]+"/in.go", "example.org/m/"+dirs[a], "./generated/generated.go")
+	verifAssert("relative-target-below", err == nil && got == "example.org/m/"+dirs[a]+"/generated")
+	got, err = resolvePackage("/m/"+dirs[a]+"/in.go", "example.org/m/"+dirs[a], "x.gen.go")
+	verifAssert("relative-target-beside", err == nil && got == "example.org/m/"+dirs[a])
+}
